@@ -30,6 +30,7 @@ from __future__ import annotations
 import ast
 import inspect
 import itertools
+import re
 import time
 
 import z3
@@ -251,14 +252,32 @@ def as_E(x):
 # one run of a reference rule against one real path
 # ------------------------------------------------------------------------------------------------
 
+class _Conds(list):
+    """guards of one run, each with the label of the rule clause that states it"""
+
+    def __init__(self, run):
+        list.__init__(self)
+        self.run, self.labels = run, []
+
+    def append(self, c):
+        list.append(self, c)
+        self.labels.append(self.run.cur_label)
+
+    def __delitem__(self, k):
+        list.__delitem__(self, k)
+        del self.labels[k]
+
+
 class Run:
+    cur_label = "built-node"
+
     def __init__(self, vc, out, items, choices, bindings):
         self.vc, self.out, self.st = vc, out, out.st
         self.items = items
         self.pos = 0
         self.choices = choices
         self.ci = 0
-        self.conds = []
+        self.conds = _Conds(self)
         self.bindings = bindings          # (key, idx) -> value, shared over the paths of the method
         self.new_bindings = {}
         self.cur = None
@@ -293,16 +312,22 @@ class Run:
     def at_end(self):
         return self.pos >= len(self.items)
 
-    def guard(self, *specs):
+    def guard(self, *specs, label=None):
         """the current token is one of specs"""
+        self.cur_label = label or "token-guard"
         self.conds.append(z3.Or(*[tok_is(self.st, self.cur, s) for s in specs]))
+        self.cur_label = "built-node"
 
-    def guard_not(self, *specs):
+    def guard_not(self, *specs, label=None):
+        self.cur_label = label or "token-guard"
         for s in specs:
             self.conds.append(z3.Not(tok_is(self.st, self.cur, s)))
+        self.cur_label = "built-node"
 
-    def guard_term(self, c):
+    def guard_term(self, c, label=None):
+        self.cur_label = label or "guard"
         self.conds.append(c)
+        self.cur_label = "built-node"
 
     def tok(self, *specs):
         """the rule consumes the current token, which is one of specs"""
@@ -319,7 +344,9 @@ class Run:
             raise Mismatch("consumed token is not the current token")
         t = it[1]
         if specs:
+            self.cur_label = "consumed-token"
             self.conds.append(z3.Or(*[tok_is(self.st, t, s) for s in specs]))
+            self.cur_label = "built-node"
         self.pos += 1
         self.cur = None
         self._skip_cur()
@@ -1278,6 +1305,9 @@ def r_filter(R, node=None, start_inline=False, **_):
 
 
 TEST_ARG_STARTS = ("name", "string", "integer", "float", "lparen", "lbracket", "lbrace")
+# "If the test only takes one argument, you can leave out the parentheses": the argument is an operand; a keyword that
+# continues the enclosing expression (`x is defined if y else z`, `... and ...`, `... in ...`) does not start one
+TEST_ARG_STOP = ("name:else", "name:or", "name:and", "name:if", "name:in", "name:not")
 
 
 def r_test(R, node=None, **_):
@@ -1296,7 +1326,8 @@ def r_test(R, node=None, **_):
         args, kwargs, da, dk = R.call("parse_call_args")
     elif c in (1, 2):
         R.guard(*TEST_ARG_STARTS)
-        R.guard_not("lparen", "name:else", "name:or", "name:and")
+        R.guard_not("lparen")
+        R.guard_not(*TEST_ARG_STOP, label="bare-test-argument-is-an-expression-keyword")
         if c == 1:
             R.guard("name:is")
             R.fail()
@@ -1306,7 +1337,7 @@ def r_test(R, node=None, **_):
         args = ListOf([arg])
     else:
         R.guard_term(z3.Or(z3.Not(z3.Or(*[tok_is(R.st, R.cur, s) for s in TEST_ARG_STARTS])),
-                           *[tok_is(R.st, R.cur, s) for s in ("name:else", "name:or", "name:and")]))
+                           *[tok_is(R.st, R.cur, s) for s in TEST_ARG_STOP]), label="test-without-argument")
         args = ListOf([])
     t = Nd(N.Test, node=node, name=name, args=args, kwargs=kwargs, dyn_args=da, dyn_kwargs=dk)
     return Nd(N.Not, node=t) if negated else t
@@ -1354,6 +1385,7 @@ def run_rule(vc, rule, params, out, bindings, final=False):
     own_raise = out.raised and out.value.cls is not None
     stack = [[]]
     good, reasons, deferred, nb_all = [], [], False, []
+    runs = out.rule_runs = []
     n_runs = 0
     while stack:
         choices = stack.pop()
@@ -1392,6 +1424,7 @@ def run_rule(vc, rule, params, out, bindings, final=False):
             cs = [c for c in R.conds if c is not True]
             good.append(False if any(c is False for c in cs) else (z3.And(*cs) if cs else True))
             nb_all.append(R.new_bindings)
+            runs.append((list(R.conds), list(R.conds.labels)))
         elif status == "deferred":
             deferred = True
             reasons.append("the accumulator of the loop cannot be identified")
@@ -1559,15 +1592,40 @@ class Level(VC):
         return r
 
     def concretize(self, model, pre, out):
-        return {"method": self.method, "variant": self.label, "path": describe_items(out.st, items_of(out.st))[:300],
-                "result": (repr(out.value) if out.raised else describe_value(out.st, out.value))[:300]}
+        # which clause of the documented rule does this input violate (on the run of the rule that comes closest)
+        best = None
+        for conds, labels in getattr(out, "rule_runs", []):
+            bad = []
+            for c, lb in zip(conds, labels):
+                if c is True:
+                    continue
+                try:
+                    v = c if c is False else model.eval(c, model_completion=True)
+                    if c is False or z3.is_false(v):
+                        bad.append(lb)
+                except Exception:  # noqa
+                    bad.append(lb)
+            if best is None or len(bad) < len(best):
+                best = bad
+        toks = []
+        for t in out.st.ghost.get("tokens", []):
+            f = out.st.get(t).fields
+            try:
+                ty = model.eval(to_term(f["type"], "str"), model_completion=True).as_string()
+                va = model.eval(to_term(f["value"], "str"), model_completion=True).as_string()
+                toks.append(f"{ty}:{va}" if ty == "name" else ty)
+            except Exception:  # noqa
+                toks.append("?")
+        return {"method": self.method, "variant": self.label, "path": re.sub(r"!\d+", "", describe_items(out.st, items_of(out.st)))[:300],
+                "result": re.sub(r"!\d+", "", repr(out.value) if out.raised else describe_value(out.st, out.value))[:300],
+                "violated_clauses": sorted(set(best or ["structure"])), "tokens": toks[:12]}
 
     def replay(self, w):
         return native_precedence(w)
 
     def finding_key(self, res):
         w = res.witness or {}
-        return f"{w.get('method')}:{w.get('path')}"
+        return f"{w.get('method')}:{'+'.join(w.get('violated_clauses', ['structure']))}"
 
 
 # ------------------------------------------------------------------------------------------------
@@ -1594,28 +1652,58 @@ PRECEDENCE_FAMILY = [
     ("f(1,)", ((1,), {})), ("f()", ((), {})), ("'a' 'b'", "ab"), ("true", True), ("none", None), ("None", None), ("False", False), ("(a, b)", (7, 2)),
     ("[a, b]", [7, 2]), ("{'x': a}", {"x": 7}), ("l|join(',')|upper", "1,2,3"), ("a|default(1)|string|length", 1), ("1.5 + 1", 2.5), ("l.0", 1),
     ("a == b or a != b and false", False), ("a >= b", True), ("a <= b", False), ("a ~ b == '72'", True), ("a + b in [9]", True),
+    # operand order / both operands of every operator, on variables and on constants (the folded path)
+    ("a or b", 7), ("0 or b", 2), ("a and b", 2), ("0 and b", 0), ("b or a", 2), ("not not a", True), ("not a", False), ("a <= a", True), ("a < a", False),
+    ("a >= a", True), ("a > a", False), ("b <= a", True), ("b < a", True), ("a <= b", False), ("(a,)", (7,)), ("(a, b,)", (7, 2)), ("f(class=1)", ((), {"class": 1})),
+    ("f(1, class=2, **d2)", ((1,), {"class": 2, "z": 1})), ("-g(2)", -3), ("a is divisibleby l[0]", True), ("a is divisibleby(l[0])", True), ("s|my.upper", "X"),
+    ("a is my.seven", True), ("7 - 2", 5), ("2 - 7", -5), ("7 // 2", 3), ("7 / 2", 3.5), ("7 % 4", 3), ("2 ** 3", 8), ("2 * 3 + 1", 7), ("1 in [1, 2]", True),
+    ("3 in [1, 2]", False), ("3 not in [1, 2]", True), ("0 and 5", 0), ("3 and 5", 5), ("0 or 5", 5), ("3 or 5", 3), ("not 0", True), ("-(3)", -3), ("+(3)", 3),
+    ("1 < 2 < 3", True), ("1 < 3 < 2", False), ("3 > 2 >= 2", True), ("1 == 1 != 2", True), ("'a' ~ 1 ~ 2.5", "a12.5"), ("1 if 0 else 2", 2), ("(1, 2)[1]", 2),
+    ("[1, 2, 3][1:]", [2, 3]), ("{'a': 1}.a", 1), ("{'a': 1}['a']", 1), ("'abc'[::-1]", "cba"), ("'x'.upper()", "X"),
 ]
+
+
+# a test without argument directly followed by a keyword of the enclosing expression (docs: inline if, `in`, `not in`)
+TEST_THEN_KEYWORD_FAMILY = [("a is odd if true else 0", True), ("a is even if true else 0", False), ("a is odd if false", None), ("a is defined in [true]", True),
+                            ("a is defined not in [false]", True), ("a is not none if true else 0", True), ("nothing is defined if true else 5", False)]
 
 
 def native_precedence(w=None):
     """Evaluate a family of real expressions whose documented reading is given by explicit Python parentheses."""
     import jinja2
-    env = jinja2.Environment()
-    data = dict(a=7, b=2, c=3, s="x", t="y", l=[1, 2, 3], d={"k": 5}, d2={"z": 1}, f=lambda *a, **k: (a, k))
     problems = []
-    for src, want in PRECEDENCE_FAMILY:
-        try:
-            got = env.compile_expression(src, undefined_to_none=False)(**data)
-        except Exception as ex:  # noqa
-            got = f"{type(ex).__name__}: {ex}"
-        if type(got) is not type(want) or got != want:
-            problems.append(f"{src!r} evaluates to {got!r}, documented reading gives {want!r}")
-    for src in ("a if", "a +", "f(k=1, 2)", "f(**d, *l)", "f(**d, **d)", "a is number is number", "l[1", "a.+", "(a", "a not b"):
-        try:
-            env.compile_expression(src)
-            problems.append(f"{src!r} is accepted")
-        except jinja2.TemplateSyntaxError:
-            pass
+    if w and "bare-test-argument-is-an-expression-keyword" in (w.get("violated_clauses") or []):
+        env = jinja2.Environment()
+        for src, want in TEST_THEN_KEYWORD_FAMILY:
+            try:
+                got = env.compile_expression(src)(a=7)
+            except Exception as ex:  # noqa
+                got = f"{type(ex).__name__}: {ex}"
+            if type(got) is not type(want) or got != want:
+                problems.append(f"{src!r} evaluates to {got!r}, documented reading gives {want!r}")
+        return (bool(problems), "; ".join(problems[:3]) or "a keyword after an argument-less test continues the enclosing expression")
+    try:
+        env = jinja2.Environment()
+        env.filters["my.upper"] = lambda s: s.upper()
+        env.tests["my.seven"] = lambda v: v == 7
+        data = dict(a=7, b=2, c=3, s="x", t="y", l=[1, 2, 3], d={"k": 5}, d2={"z": 1}, f=lambda *a, **k: (a, k), g=lambda x: x + 1)
+        for src, want in PRECEDENCE_FAMILY:
+            try:
+                got = env.compile_expression(src, undefined_to_none=False)(**data)
+            except Exception as ex:  # noqa
+                got = f"{type(ex).__name__}: {ex}"
+            if type(got) is not type(want) or got != want:
+                problems.append(f"{src!r} evaluates to {got!r}, documented reading gives {want!r}")
+        for src in ("a if", "a +", "f(k=1, 2)", "f(**d, *l)", "f(**d, **d)", "a is number is number", "l[1", "a.+", "(a", "a not b"):
+            try:
+                env.compile_expression(src)
+                problems.append(f"{src!r} is accepted")
+            except jinja2.TemplateSyntaxError:
+                pass
+            except Exception as ex:  # noqa
+                problems.append(f"{src!r}: {type(ex).__name__} instead of TemplateSyntaxError")
+    except Exception as ex:  # noqa
+        problems.append(f"environment setup failed: {type(ex).__name__}: {ex}")
     return (bool(problems), "; ".join(problems[:4]) or f"{len(PRECEDENCE_FAMILY)} expressions evaluate as their documented reading")
 
 
